@@ -119,6 +119,8 @@ def two_step_case(ctx, rng):
         'set_type': lambda: DF.set_type('.*', description='d'),
         'update_schema': lambda: DF.update_schema(None, missingValues=['', 'x']),
         'duplicate': lambda: DF.duplicate(),
+        'duplicate_last': lambda: DF.duplicate(source=desc['resources'][-1]['name'], target_name='zz-dup', target_path='zz-dup.csv',
+                                               duplicate_to_end=True),
     }
     seconds = {
         'rename_fields': lambda: DF.rename_fields({'zz_new': 'zz_ren'}, resources=sel),
@@ -128,6 +130,8 @@ def two_step_case(ctx, rng):
         'update_resource': lambda: DF.update_resource(sel, title='changed'),
         'add_field': lambda: DF.add_field('zz_2', 'integer', 1, resources=sel),
         'select_fields': lambda: DF.select_fields(['zz_.*'], resources=sel),
+        'delete_resource': lambda: DF.delete_resource(sel),
+        'filter_rows': lambda: DF.filter_rows(lambda r: False, resources=sel),
     }
     f1 = rng.choice(sorted(firsts))
     f2 = rng.choice(sorted(seconds))
